@@ -569,8 +569,75 @@ namespace verif
                 t.join();
         // ---- shutdown ---------------------------------------------------------------------------
         g_async.close_and_join(); // answers still being written from their own threads finish first (see AsyncAnswers)
-        auto done = std::async(std::launch::async, [srv] { srv->stop(); });
+        // connection churn (derived from the request count, no choice consumed): three more client threads
+        // open new connections at the moment of the shutdown, so that the acceptor has a connection
+        // pending when it is told to stop
+        bool churn = shut != 0 && total % 2 == 0;
+        std::atomic<bool> churn_stop { false };
+        std::vector<std::thread> churners;
+        if (churn)
+        {
+            rep.label("shutdown-during-connection-churn");
+            for (int i = 0; i < 3; ++i)
+                churners.emplace_back([&] {
+                    // at most 30 connects per thread: once shutdown() has happened nobody accepts, and a
+                    // connect() to a full backlog would block far longer than the case may take
+                    for (int k = 0; k < 30 && !churn_stop; ++k)
+                    {
+                        int fd = net::connect_loopback(port);
+                        if (fd >= 0)
+                            ::close(fd);
+                        net::sleep_ms(1);
+                    }
+                });
+            net::sleep_ms(8);
+        }
+        // shutdown() by itself must stop the acceptor and every framework thread; the endpoint is
+        // destroyed only afterwards (its destructor signals the shutdown a second time)
+        std::atomic<bool> go { false };
+        auto done = std::async(std::launch::async, [srv, &go] {
+            while (!go)
+            {
+            }
+            srv->shutdown_only();
+        });
+        std::vector<int> last_moment;
+        if (churn)
+        {
+            net::sleep_ms(1); // the thread above is spinning by now
+            for (int i = 0; i < 4; ++i)
+                last_moment.push_back(net::connect_loopback(port)); // handshakes complete in the kernel; not yet accepted
+        }
+        go = true;
         bool returned = done.wait_for(std::chrono::seconds(10)) == std::future_status::ready;
+        for (int fd : last_moment)
+            if (fd >= 0)
+                ::close(fd);
+        churn_stop = true;
+        for (auto& t : churners)
+            t.join();
+        int after_shutdown = 0;
+        bool threads_gone  = true;
+        if (returned)
+        {
+            // client threads of this case that are still running are ours, not the framework's
+            int mine = 0;
+            if (shut == 2)
+                mine = clients; // joined below
+            done.get(); // the helper thread that called shutdown() has finished; the bounded wait below covers its exit
+            threads_gone = net::wait_for([&] { after_shutdown = net::thread_count(); return after_shutdown <= threads_before + mine; }, 5000);
+            if (threads_gone && shut == 2)
+            {
+                for (auto& t : th)
+                    t.join();
+                th.clear();
+                threads_gone = net::wait_for([&] { after_shutdown = net::thread_count(); return after_shutdown <= threads_before; }, 5000);
+            }
+            auto destroyed = std::async(std::launch::async, [srv] { srv->stop(); });
+            returned       = destroyed.wait_for(std::chrono::seconds(10)) == std::future_status::ready;
+            if (!returned)
+                new std::future<void>(std::move(destroyed));
+        }
         if (shut == 2)
             for (auto& t : th)
                 t.join();
@@ -584,6 +651,9 @@ namespace verif
             new std::future<void>(std::move(done));
             return Verdict::fail("C09/timing/shutdown-hangs", cfg + ": shutdown() / endpoint destruction did not return within 10 s");
         }
+        if (!threads_gone)
+            return Verdict::fail("C09/timing/threads-left-after-shutdown", cfg + (churn ? " (new connections arriving at that moment)" : "") + ": shutdown() returned, but 5 s later " + std::to_string(after_shutdown)
+                                     + " threads are running, " + std::to_string(threads_before) + " before the endpoint was created (the endpoint object still exists: its destructor has not signalled again)");
         {
             std::lock_guard<std::mutex> g(m);
             if (!failure_sig.empty())
